@@ -7,9 +7,14 @@ pub mod c03;
 pub mod c08;
 pub mod c09;
 pub mod c02;
+pub mod c04;
 pub mod c06;
+pub mod c10;
 pub mod c11;
 pub mod c12;
+pub mod c13;
+pub mod c14;
+pub mod c15;
 pub mod features;
 
 pub trait Monitor: Send {
@@ -41,6 +46,11 @@ impl Monitors {
                 "C02" => v.push(Box::new(c02::C02::new(p))),
                 "C11" => v.push(Box::new(c11::C11::new(p))),
                 "C06" => v.push(Box::new(c06::C06::new(p))),
+                "C10" => v.push(Box::new(c10::C10::new(p))),
+                "C13" => v.push(Box::new(c13::C13::new(p))),
+                "C04" => v.push(Box::new(c04::C04::new(p))),
+                "C14" => v.push(Box::new(c14::C14::new(p))),
+                "C15" => v.push(Box::new(c15::C15::new(p))),
                 other => panic!("unknown monitor {other}"),
             }
         }
